@@ -28,8 +28,17 @@ for sd in seeds:
         meta["detected_by"] = {"check": f"./check {pid} --tier quick", "exit_code": r.returncode, "violations": len(viol),
                                "first_violation": first[:400], "summary": next((l for l in out if l.startswith(f"{pid} quick")), "")[:300]}
         rows.append((sd, f"exit {r.returncode}, {len(viol)} VIOLATION line(s)", first[:160]))
+    except subprocess.TimeoutExpired:
+        meta["detected_by"] = {"check": f"./check {pid} --tier quick", "exit_code": None, "error": "timed out after 3600 s"}
+        rows.append((sd, "timeout", ""))
     finally:
         subprocess.run("git -C /repo checkout -- .", shell=True)
     json.dump(meta, open(f"{d}/meta.json", "w"), indent=1)
     print(rows[-1], flush=True)
-json.dump(rows, open("/verif/seeded/matrix.json", "w"), indent=1)
+allrows = []
+for d in sorted(glob.glob("/verif/seeded/C*_*")):
+    m = json.load(open(f"{d}/meta.json"))
+    db = m.get("detected_by") or {}
+    allrows.append({"seed": os.path.basename(d), "property": m.get("property"), "exit_code": db.get("exit_code"), "violations": db.get("violations"),
+                    "first_violation": (db.get("first_violation") or "")[:200], "note": db.get("note", "")})
+json.dump(allrows, open("/verif/seeded/matrix.json", "w"), indent=1)
